@@ -276,6 +276,7 @@ var hazardPrograms = []string{
 	"var o = {1: 'a', 1.5: 'b', 1e3: 'c', 0x10: 'd', 1e21: 'e', .5: 'f', 1000000000000: 'g', 0.000001: 'h', 1e-7: 'i'}; $p(Object.keys(o).sort());",
 	"class C { 1 = 'a'; 1.5() { return 'b' } static 1e3 = 'c'; get 0x10() { return 'd' } } $p(new C()[1], new C()[1.5](), C[1000], new C()[16]);",
 	"var x = 1; $p(x /2/ 1, /2/.test('2'), /[/]/.source, /\\//.source, /a/g.flags, /=/.source, / /.source, 1 / /1/.source.length);",
+	"var x = 8, g = 2, i = 1; $p(x / /2/.source, x / /[/]/.source.length, x /g/i, x / / /.source.length, 4 / /\\//.source.length, x / +/3/.source, x / -/4/.source.length, [x / /5/.source][0], x % /3/.source, x * /2/.source, x/**/ / /2/.source);",
 	"$p(/a/ in {'/a/': 1}, /a/ instanceof RegExp, typeof /a/, void /a/, 4 / 2 / 1, [/a/, /b/i].length);",
 	"$p(/[\\u2028]/.source.length, /\\u{1F600}/u.test('\\u{1F600}'), /caf\\u00e9/.test('café'), /é/.test('\\xe9'), /😀/u.source.length, /\\ud83d/.test('😀'));",
 	"$p(123n, 0x1Fn, 0b101n, 0o17n, 1_000n, -5n, 2n ** 64n, typeof 1n, 123n.toString(), (5n).toString(2), -(-5n), 0n === -0n);",
@@ -322,18 +323,60 @@ var hazardPrograms = []string{
 	"$p(1000000000000, 1099511627776, 4503599627370496, 18446744073709552000, 0xFFFFFFFFFFFFF800, 18446744073709549568, 1e12 + 0.5, 2 ** 40 .toString().length, 0xe8d4a51000, 0xE8D4A51000 .toString(16), 1234567890123456789, 12345678901234567890);",
 }
 
+// programs that replay a recorded known finding (they fail on purpose and are
+// therefore run last and in few variants, so that they cannot crowd other
+// failures out of the failure list)
+func replaysKnownFinding(src string) bool {
+	for _, m := range []string{"use\\x20strict", "use\\u0020strict", "('use strict')", "'a' + 'b'; 'use strict'", "continue; function f()"} {
+		if strings.Contains(src, m) {
+			return true
+		}
+	}
+	return false
+}
+
 func glueNodeLiterals(r *Rng, st *Stats, n int) {
 	type nc struct {
 		src, out, desc string
 	}
 	var cases []nc
-	for k := 0; k < len(hazardPrograms)*2 && k < n; k++ {
-		src := hazardPrograms[k%len(hazardPrograms)]
-		g := randGlueOpts(r)
-		if k < len(hazardPrograms) {
-			// first pass: plain and minify-whitespace alternately, ASCII
-			g = glueOpts{o: api.TransformOptions{Loader: api.LoaderJS, LogLevel: api.LogLevelSilent, MinifyWhitespace: k%2 == 0}, desc: fmt.Sprint("minify-whitespace=", k%2 == 0), ascii: true}
+	add := func(src string, o api.TransformOptions, desc string) {
+		res := api.Transform(src, o)
+		out := ""
+		if len(res.Errors) > 0 {
+			out = "\x00ERR:" + res.Errors[0].Text
+		} else {
+			out = string(res.Code)
 		}
+		cases = append(cases, nc{src, out, desc})
+	}
+	// fixed must-pass corpus (identical for every seed): every hazard program
+	// x {pretty, minify-whitespace} x {platform browser, node}; e.g. the
+	// division-before-regexp program under minify-whitespace,platform=node
+	// re-detects a revert of /repo fix c46361e ("1//1/.source.length")
+	for pass := 0; pass < 2; pass++ {
+		for _, src := range hazardPrograms {
+			if replaysKnownFinding(src) != (pass == 1) {
+				continue
+			}
+			for v := 0; v < 4; v++ {
+				if pass == 1 && v >= 2 {
+					break
+				}
+				o := api.TransformOptions{Loader: api.LoaderJS, LogLevel: api.LogLevelSilent, MinifyWhitespace: v%2 == 1}
+				desc := fmt.Sprint("corpus,minify-whitespace=", v%2 == 1)
+				if v >= 2 {
+					o.Platform = api.PlatformNode
+					desc += ",platform=node"
+				}
+				add(src, o, desc)
+			}
+		}
+	}
+	// seeded option variation
+	for k := 0; k < len(hazardPrograms) && k < n; k++ {
+		src := hazardPrograms[k]
+		g := randGlueOpts(r)
 		g.o.Supported = nil // feature overrides lower syntax: outside this property (literal stream only)
 		if i := strings.Index(g.desc, "supported:"); i >= 0 {
 			g.desc = strings.TrimSuffix(g.desc[:i], ",")
@@ -343,14 +386,7 @@ func glueNodeLiterals(r *Rng, st *Stats, n int) {
 			g.o.Format = []api.Format{api.FormatIIFE, api.FormatCommonJS, api.FormatESModule}[r.Intn(3)]
 			g.desc += fmt.Sprint(",format=", g.o.Format)
 		}
-		res := api.Transform(src, g.o)
-		out := ""
-		if len(res.Errors) > 0 {
-			out = "\x00ERR:" + res.Errors[0].Text
-		} else {
-			out = string(res.Code)
-		}
-		cases = append(cases, nc{src, out, g.desc})
+		add(src, g.o, g.desc)
 	}
 	var progs []string
 	for _, c := range cases {
